@@ -364,7 +364,11 @@ class SDateTime(Sym):
             raise Unsupported('astimezone() to the system zone')
         m0 = tz_minutes(self.tzinfo)
         if m0 is None:
-            raise Unsupported('astimezone() on a naive datetime (uses the system zone)')
+            # a naive datetime is taken to be in the system zone: stubbed by the fixed offset this machine runs with
+            import time as _time
+            if _time.daylight:
+                raise Unsupported('astimezone() on a naive datetime (system zone with DST)')
+            m0 = -_time.timezone // 60
         m1 = tz_minutes(tz)
         # a fixed-offset shift moves the local date by at most one day either way
         tm = z3.simplify(_I(self.hour) * 60 + _I(self.minute) - _I(m0) + _I(m1))
